@@ -294,6 +294,21 @@ theorem thetaDefect_tendsto_zero (s l m l' : Int) :
   rw [hCdef]
   field_simp
 
+/-- consequence for the discrete Gram matrix of `sYlm_coefficients` on the grid of `Psi4_lm`
+(`|s| ≤ 2`, `l, l' ≤ 12`, `|m − m'| ≤ Nφ`; Lemmas/C20Quad.lean `gridGram_defect`): it differs from
+the identity (on admissible modes) by at most the explicit O(1/(Nθ+1)²) bound. -/
+theorem gridGram_near_identity (s : Int) (N : Nat) (l m l' m' : Int) (hs : |s| ≤ 2)
+    (hlL : l ≤ (tableL : Int)) (hl'L : l' ≤ (tableL : Int)) (hd : |m' - m| ≤ ((nPhi N : Nat) : Int)) :
+    ‖gridGram s N l m l' m' - (if l = l' ∧ m = m' ∧ |s| ≤ l ∧ |m| ≤ l then 1 else 0)‖
+      ≤ Real.sqrt (((normRadicand s l m : ℚ) : ℝ) / π) * Real.sqrt (((normRadicand s l' m : ℚ) : ℝ) / π)
+        * (2 * π) * (((Kθ s l m l' : ℕ) : ℝ) * π ^ 3 / (24 * ((N + 1 : ℕ) : ℝ) ^ 2)) := by
+  rw [gridGram_defect s N l m l' m' hs hlL hl'L hd, add_sub_cancel_left]
+  by_cases hmm : m = m'
+  · rw [if_pos hmm, Complex.norm_real, Real.norm_eq_abs]
+    exact thetaDefect_bound s N l m l'
+  · rw [if_neg hmm, norm_zero]
+    exact le_trans (abs_nonneg _) (thetaDefect_bound s N l m l')
+
 /-! ### non-vacuity: the constants are concrete numbers -/
 
 example : Kθ (-2) 2 2 2 = 50 := by decide +kernel
